@@ -270,6 +270,73 @@ def tailcall_cases(draw, nenv=2):
 
 
 @st.composite
+def chain_cases(draw, nenv=2):
+    """deep chains of real calls: level i always calls level i-1 (from one or two sites, so that it is never inlined
+    under any option vector), keeps a value of its own alive across the call and uses the result afterwards; slim
+    functions (<= 2 parameters, one or two temporaries) so that 3-5 levels fit into the register file.  Early returns
+    in front of and behind the inner call; results and bare calls mixed."""
+    n = draw(st.integers(3, 5))
+    L = [HDR.rstrip("\n")]
+    fs = []
+    feats = {"deep-chain"}
+    consts = set()
+    for i in range(n):
+        npar = draw(st.integers(0 if i else 1, 2))
+        has_ret = draw(st.integers(0, 9)) < 7
+        ps = [f"p{i}{j}" for j in range(npar)]
+        L.append(f"def c{i}({', '.join(ps)}):")
+        t = f"t{i}"
+        base = " - 2 * ".join(ps) if ps else draw(st.sampled_from(READS))
+        L.append(f"    {t} = {base} + {draw(st.sampled_from(READS + ['1', '3']))}")
+        if draw(st.integers(0, 9)) < 4:
+            feats.add("early-return-before-inner-call")
+            c = draw(st.sampled_from(CONST)); consts.add(float(c))
+            L.append(f"    if {t} {draw(st.sampled_from(CMP))} {draw(st.sampled_from(READS + [c]))}:")
+            L.append(f"        {draw(st.sampled_from(OUTS))} = {t} + {i}")
+            L.append(f"        return {t} * 2" if has_ret else "        return")
+        if fs:
+            g = fs[-1]
+            sites = draw(st.integers(1, 2))
+            for k in range(sites):
+                args = ", ".join(draw(st.sampled_from([f"({t} + {k + 1})", f"({t} * 2)"] + [f"({p} - 1)" for p in ps] + READS[:3] + ["2"])) for _ in range(g["npar"]))
+                g["calls"] += 1
+                if g["has_ret"]:
+                    how = draw(st.integers(0, 2))
+                    if how == 0:
+                        L.append(f"    {t} = {t} - 3 * {g['name']}({args})")
+                    elif how == 1:
+                        L.append(f"    {draw(st.sampled_from(OUTS))} = {g['name']}({args}) + {t}")
+                    else:
+                        L.append(f"    v{i}{k} = {g['name']}({args})")
+                        L.append(f"    {draw(st.sampled_from(OUTS))} = v{i}{k} - {t}")
+                else:
+                    L.append(f"    {g['name']}({args})")
+                    L.append(f"    {draw(st.sampled_from(OUTS))} = {t} + {10 * i + k}")
+                if k == 0 and draw(st.integers(0, 9)) < 3:
+                    feats.add("early-return-after-inner-call")
+                    L.append(f"    if {draw(st.sampled_from(READS))} {draw(st.sampled_from(CMP))} {t}:")
+                    L.append(f"        return {t} + 1" if has_ret else "        return")
+        else:
+            L.append(f"    {draw(st.sampled_from(OUTS))} = {t} * 2 + {draw(st.sampled_from(READS))}")
+        if has_ret:
+            L.append(f"    return {t} - {i + 1}")
+        fs.append({"name": f"c{i}", "npar": npar, "has_ret": has_ret, "calls": 0})
+    L.append("while True:")
+    top = fs[-1]
+    for k in range(draw(st.integers(1, 2))):
+        args = ", ".join(draw(st.sampled_from(READS[:4] + ["1", "4", "-2"])) for _ in range(top["npar"]))
+        L.append(f"    {OUTS[k]} = {top['name']}({args})" if top["has_ret"] else f"    {top['name']}({args})")
+    for f in fs[:-1]:
+        if f["calls"] < 2 or draw(st.integers(0, 3)) == 0:
+            # a second call site in the main code for levels called only once so far: keeps them out of line
+            args = ", ".join(draw(st.sampled_from(READS[:4] + ["1", "5"])) for _ in range(f["npar"]))
+            L.append(f"    d5.Setting = {f['name']}({args})" if f["has_ret"] else f"    {f['name']}({args})")
+    L.append("    yield_()")
+    return {"src": {"": "\n".join(L) + "\n"}, "env_seeds": [draw(st.integers(0, 2**31 - 1)) for _ in range(nenv)],
+            "pool": pool_for(consts), "features": sorted(feats), "max_static_depth": n}
+
+
+@st.composite
 def callgraph_cases(draw, nenv=2, **kw):
     g = G(draw, **kw)
     src = g.program()
